@@ -510,6 +510,11 @@ impl<'a, 'p> Dec<'a, 'p>
     fn evty(&mut self) -> u8 { self.below(N_EVTY as usize) as u8 }
     fn res(&mut self) -> u8 { self.below(N_RES as usize) as u8 }
 
+    /// Resource named by a trigger key or an explicit trigger call: one in sixteen names `RC` (index 2), a reactive
+    /// resource type that is never inserted - dispatch depends on the registrations, not on a value being present.
+    /// One byte, monotone in the byte (as `res`).
+    fn res_trig(&mut self) -> u8 { let x = self.byte(); if x >= 240 { 2 } else if x < 120 { 0 } else { 1 } }
+
     fn sysref(&mut self, own: Option<u8>) -> SysRef
     {
         if let Some(own) = own
@@ -532,7 +537,7 @@ impl<'a, 'p> Dec<'a, 'p>
             6 => { let e = self.entity(); Key::EntityInsertion(e, self.comp()) }
             7 => { let e = self.entity(); Key::EntityMutation(e, self.comp()) }
             8 => { let e = self.entity(); Key::EntityRemoval(e, self.comp()) }
-            9 => Key::ResourceMutation(self.res()),
+            9 => Key::ResourceMutation(self.res_trig()),
             _ => Key::Despawn(self.entity()),
         }
     }
@@ -573,7 +578,7 @@ impl<'a, 'p> Dec<'a, 'p>
             OPK_TRIGMUT => { let e = self.entity(); Op::TriggerMutation(e, self.comp()) }
             OPK_REMOVE => { let e = self.entity(); Op::Remove(e, self.comp()) }
             OPK_RESMUT => Op::ResMutate(self.res()),
-            OPK_RESTRIG => Op::ResTrigger(self.res()),
+            OPK_RESTRIG => Op::ResTrigger(self.res_trig()),
             OPK_DESPAWN_ENT => { let e = self.entity(); Op::Despawn(Target::Ent(e), self.chance(128)) }
             OPK_DESPAWN_SYS => { let s = self.sysref(own); Op::Despawn(Target::Sys(s), self.chance(128)) }
             OPK_GC => Op::Gc,
